@@ -612,7 +612,8 @@ def rebind(msg: bytes, suite_name: str, psk: bytes) -> bytes:
 B_CERT_CASES = ["wrong-name", "expired", "not-yet", "self-signed", "untrusted-ca",
                 "untrusted-ca+root-in-chain", "untrusted-inter+root-in-chain", "untrusted-inter-in-chain"]
 B_SIG_CASES = ["cv-wrong-key", "cv-wrong-context", "cv-wrong-transcript"]
-B_PSK_CASES = ["psk-impostor-server", "psk-client-secret-unknown-to-server", "psk-unknown-ticket-then-bad-cert"]
+B_PSK_CASES = ["psk-impostor-server", "psk-client-secret-unknown-to-server", "psk-unknown-ticket-then-bad-cert",
+               "psk-claimed-without-secret:AES_128_GCM_SHA256", "psk-claimed-without-secret:AES_256_GCM_SHA384", "psk-claimed-without-secret:CHACHA20_POLY1305_SHA256"]
 
 
 def b_run(case: str, kind: str, res, batch):
@@ -625,6 +626,8 @@ def b_run(case: str, kind: str, res, batch):
     mangle = None
     expect = "must-fail"
     resume = False
+    if case.startswith("psk-claimed"):
+        cfg = dict(cfg, suites=None)  # the client offers its whole default list, so the impostor has a choice
     if case.startswith("psk") or case == "control-psk-rebind-same-secret" or case == "control-psk":
         if not first_ticket(cfg, store, res):
             res.inconclusive.append("b %s/%s: ticket-issuing handshake did not complete" % (case, kind))
@@ -669,6 +672,13 @@ def b_run(case: str, kind: str, res, batch):
                 return out
             return msg
 
+    elif case.startswith("psk-claimed-without-secret:"):
+        # an impostor that knows neither a certificate key nor the resumption secret answers ServerHello with
+        # pre_shared_key=0 and the given cipher suite (the ticket's or another one the client offered), derives
+        # everything from the (EC)DHE share alone and goes straight to EncryptedExtensions + Finished
+        import functools
+
+        sv.ctx._server_handle_hello = functools.partial(_claim_psk_without_secret, sv.ctx, tls.CipherSuite[case.split(":")[1]])
     elif case == "psk-client-secret-unknown-to-server":
         # the client holds a ticket whose secret differs from what the server stored
         cl.ctx.session_ticket = dataclasses.replace(store.client[0], resumption_secret=os.urandom(len(store.client[0].resumption_secret)))
@@ -681,6 +691,58 @@ def b_run(case: str, kind: str, res, batch):
         expect = "must-complete-full"
     pump(cl, sv, mangle)
     return cl, sv, expect
+
+
+def _claim_psk_without_secret(ctx, cipher_suite, input_buf, initial_buf, handshake_buf, onertt_buf):
+    """Attacker routine (replaces the impostor server's own ClientHello handler; built from the TLS engine's public
+    primitives — it is the *attack*, not the oracle)."""
+    import os as _os
+
+    from aioquic import tls
+    from cryptography.hazmat.primitives.asymmetric import ec, x448, x25519
+
+    peer_hello = tls.pull_client_hello(input_buf)
+    if peer_hello.pre_shared_key is None or cipher_suite not in peer_hello.cipher_suites:
+        raise RuntimeError("harness: the client did not offer a PSK / the suite")
+    ctx.client_random = peer_hello.random
+    ctx.server_random = _os.urandom(32)
+    ctx.legacy_session_id = peer_hello.legacy_session_id
+    ctx.received_extensions = peer_hello.other_extensions
+    ctx.alpn_negotiated = peer_hello.alpn_protocols[0] if peer_hello.alpn_protocols else None
+    ctx.key_schedule = tls.KeySchedule(cipher_suite)
+    ctx.key_schedule.extract(None)
+    ctx.key_schedule.update_hash(input_buf.data)
+    shared_key = None
+    for key_share in peer_hello.key_share:
+        pub = tls.decode_public_key(key_share)
+        if isinstance(pub, x25519.X25519PublicKey):
+            priv = x25519.X25519PrivateKey.generate()
+            shared_key = priv.exchange(pub)
+        elif isinstance(pub, x448.X448PublicKey):
+            priv = x448.X448PrivateKey.generate()
+            shared_key = priv.exchange(pub)
+        elif isinstance(pub, ec.EllipticCurvePublicKey):
+            priv = ec.generate_private_key(pub.curve)
+            shared_key = priv.exchange(ec.ECDH(), pub)
+        if shared_key is not None:
+            break
+    hello = tls.ServerHello(random=ctx.server_random, legacy_session_id=ctx.legacy_session_id, cipher_suite=cipher_suite,
+                            compression_method=tls.CompressionMethod.NULL, key_share=tls.encode_public_key(priv.public_key()),
+                            pre_shared_key=0, supported_version=tls.TLS_VERSION_1_3)
+    with tls.push_message(ctx.key_schedule, initial_buf):
+        tls.push_server_hello(initial_buf, hello)
+    ctx.key_schedule.extract(shared_key)
+    ctx._setup_traffic_protection(tls.Direction.ENCRYPT, tls.Epoch.HANDSHAKE, b"s hs traffic")
+    ctx._setup_traffic_protection(tls.Direction.DECRYPT, tls.Epoch.HANDSHAKE, b"c hs traffic")
+    with tls.push_message(ctx.key_schedule, handshake_buf):
+        tls.push_encrypted_extensions(handshake_buf, tls.EncryptedExtensions(alpn_protocol=ctx.alpn_negotiated, early_data=False, other_extensions=ctx.handshake_extensions))
+    with tls.push_message(ctx.key_schedule, handshake_buf):
+        tls.push_finished(handshake_buf, tls.Finished(verify_data=ctx.key_schedule.finished_verify_data(ctx._enc_key)))
+    ctx.key_schedule.extract(None)
+    ctx._setup_traffic_protection(tls.Direction.ENCRYPT, tls.Epoch.ONE_RTT, b"s ap traffic")
+    ctx._next_dec_key = ctx.key_schedule.derive_secret(b"c ap traffic")
+    ctx._psk_key_exchange_mode = None
+    ctx._server_expect_finished(onertt_buf)
 
 
 def b_negauth_tls(batch, res):
